@@ -40,6 +40,17 @@ def tolerated_failure_same_checksum_file_removed():
     return p, ops
 
 
+def tolerated_failure_through_a_parent_never_started():
+    """The consumer tolerates the failure of a *plain* target whose checksummed dependency fails: the plain target is only 'maybe
+    out of date', its prerequisite is tried out of band and fails, so its own script is never started and nothing marks it failed.
+    The consumer that carried on must still be rebuilt once the prerequisite is repaired to the same checksum (reported by a
+    sub-agent in round 7; fixed in the repository)."""
+    p = _prog(['s0', 's1'], [('t3', dict(deps=['s1'], stamp=True, flag=0)), ('t2', dict(deps=['t3'])),
+                             ('t4', dict(deps=['s0'], opt='t2')), ('t6', dict(deps=['t4']))])
+    ops = [B(['t6']), ('flag', 't3', 1), B(['t4'], forced=True), ('flag', 't3', 0), B(['t3']), B(['t4']), B(['t6']), B(['t6'])]
+    return p, ops
+
+
 def tolerated_failure_plain():
     p = _prog(['s0'], [('t3', dict(deps=['s0'], flag=0)), ('t4', dict(deps=['s0'], opt='t3')), ('t5', dict(deps=['t4']))])
     ops = [B(['t5']), ('flag', 't3', 1), B(['t5']), B(['t5']), ('flag', 't3', 0), B(['t5']), B(['t5'])]
@@ -107,6 +118,6 @@ def forced_rebuild_fails_then_indirect_request():
     return p, ops
 
 
-SCENARIOS = dict((f.__name__, f) for f in (tolerated_failure_same_checksum, tolerated_failure_same_checksum_file_removed, tolerated_failure_plain, forced_after_check_same_command,
+SCENARIOS = dict((f.__name__, f) for f in (tolerated_failure_same_checksum, tolerated_failure_same_checksum_file_removed, tolerated_failure_through_a_parent_never_started, tolerated_failure_plain, forced_after_check_same_command,
                                            oob_dependency_fails_before_or_after, stamp_chain_edit_cycle, stamp_sometimes, override_then_removed,
                                            overwritten_checksummed_then_failing_sibling, forced_rebuild_fails_then_indirect_request))
